@@ -4,6 +4,7 @@ CONSTANTS N = 0
           FailAt = 0
           Buffered = FALSE
           RestartsOnLateRequest = TRUE
+          Replenish = FALSE
           Grants = {1, 2, 99}
           Big = 99
           MaxCalls = 2
